@@ -38,11 +38,12 @@ type caseInfo struct {
 }
 
 type checker struct {
-	r       *monitor.Run
-	mu      sync.Mutex
-	serial  bool       // true while the single-threaded (allocation) section runs
-	big     []caseInfo // deferred: declared remaining length > bigRL
-	samples int
+	r           *monitor.Run
+	mu          sync.Mutex
+	serial      bool       // true while the single-threaded (allocation) section runs
+	big         []caseInfo // deferred: declared remaining length > bigRL
+	samples     int
+	sizeSampled bool
 }
 
 func vstr(v mqttx.Version) string { return fmt.Sprint(int(v)) }
@@ -104,7 +105,8 @@ func (c *checker) runCase(ci caseInfo) (accepted bool) {
 		r.Count("alloc_measured", 1)
 		r.Max("alloc_max_bytes_per_decode", int64(delta))
 		if limit := uint64(allocSlack + allocFactor*len(ci.in)); delta > limit {
-			r.Violation("alloc.bomb:type="+tn+":v="+vs,
+			// the allocation happens before the body is looked at: name the reader's version even for CONNECT
+			r.Violation("alloc.bomb:type="+tn+":v="+vstr(ci.v),
 				fmt.Sprintf("decoding %d supplied bytes (%s, declared remaining length %d) allocated %d bytes (limit %d)", len(ci.in), tn, hin.rl, delta, limit),
 				c.detail(ci, map[string]any{"allocated_bytes": delta, "limit_bytes": limit, "declared_remaining_length": hin.rl}))
 		}
@@ -405,6 +407,9 @@ func (c *checker) wfCases(stream string, cb combo, n, truncN, mutN int) {
 			continue
 		}
 		c.runCase(caseInfo{gen: "wf", v: cb.v, in: b, wf: true})
+		if cb.t != mqttx.CONNECT && i%4 == 0 && len(b) < bigRL {
+			c.sessionCase(g, cb, b)
+		}
 		for _, lf := range longForms(b, cb.v) {
 			if _, _, err := mqttx.Decode(lf, cb.v); err != nil {
 				r.Inconclusive("long form rejected by the independent decoder: " + hexTrunc(lf) + ": " + err.Error())
@@ -451,6 +456,68 @@ func (c *checker) wfCases(stream string, cb combo, n, truncN, mutN int) {
 	}
 }
 
+// sessionCase: "CONNECT decides the version". A CONNECT of version v, then the
+// packet b (well-formed under v), then PINGREQ go through ONE Reader that was
+// initially set to another version. If the Reader decodes b when set to v
+// directly (standalone), it must decode it to the same value after the CONNECT.
+func (c *checker) sessionCase(g *gen, cb combo, b []byte) {
+	r := c.r
+	conn := g.packet(mqttx.CONNECT, cb.v)
+	// keep the CONNECT clear of content gmqtt is known to refuse (see generator (i) findings)
+	conn.Password = asciiOnly(conn.Password)
+	for _, ps := range []*mqttx.Props{conn.Props, conn.WillProps} {
+		if ps != nil {
+			ps.AuthData = asciiOnly(ps.AuthData)
+		}
+	}
+	mapStrings(conn, func(c rune) rune {
+		if c == 0xFFFD {
+			return 'x'
+		}
+		return c
+	})
+	cbytes, err := mqttx.Encode(conn, cb.v)
+	if err != nil {
+		return
+	}
+	alone := decodeStream(append(append([]byte{}, b...), trailer...), cb.v, false)
+	if alone.hung || alone.panicked != nil || alone.err != nil || alone.pkt == nil {
+		return // reported by runCase
+	}
+	want, cerr := fromGmqtt(alone.pkt, cb.v)
+	if cerr != nil {
+		return
+	}
+	v0 := versions[g.rng.Intn(3)]
+	stream := append(append(append([]byte{}, cbytes...), b...), trailer...)
+	r.Eval(1)
+	r.Count("inputs_session", 1)
+	pkts, derr, pan, hung := decodeSession(stream, v0, 3)
+	tn, vs := typeNameOf(b), vstr(cb.v)
+	det := map[string]any{"generator": "session", "initial_reader_version": int(v0), "connect_version": int(cb.v), "stream_hex": hexTrunc(stream), "packet_hex": hexTrunc(b)}
+	switch {
+	case hung:
+		r.Violation("decode.hang:type="+tn+":v="+vs, "ReadPacket did not return within 10 s (session stream)", det)
+	case pan != nil:
+		r.Violation("decode.panic:type="+tn+":v="+vs, fmt.Sprintf("ReadPacket panicked (session stream): %v", pan), det)
+	case len(pkts) == 0:
+		r.Count("session_connect_rejected", 1) // reported as wf.reject by the CONNECT cases
+	case len(pkts) < 3:
+		r.Violation("session.version:type="+tn+":v="+vs+":outcome=rejected", fmt.Sprintf("after a v%d CONNECT the Reader (initially v%d) refuses a packet it accepts when set to v%d directly: %v", cb.v, v0, cb.v, derr), det)
+	default:
+		got, cerr := fromGmqtt(pkts[1], cb.v)
+		if _, ok := pkts[2].(*packets.Pingreq); !ok || cerr != nil {
+			r.Violation("session.version:type="+tn+":v="+vs+":outcome=desync", "after a CONNECT the following packets are not decoded intact", det)
+		} else if d := diffPackets(want, got); d != "" {
+			det["want"], det["got"] = want.String(), got.String()
+			r.Violation("session.version:type="+tn+":v="+vs+":field="+d, "after a CONNECT the Reader decodes field "+d+" differently than when set to that version directly", det)
+		} else {
+			r.Count("session_version_switch_ok", 1)
+			r.Nontrivial("session:" + vs + ":" + string(b))
+		}
+	}
+}
+
 // truncOffsets: every offset for packets up to 256 bytes; for larger packets the
 // first 64, the last 16 and 32 random offsets.
 func truncOffsets(rng interface{ Intn(int) int }, n int) []int {
@@ -486,7 +553,7 @@ func Run(r *monitor.Run) {
 	c.serial = false
 
 	// ---- 2. generators (i) + (ii), parallel by (type, version, chunk)
-	perCombo := r.Pick(8, 3000)
+	perCombo := r.Pick(8, 4000)
 	chunk := r.Pick(8, 250)
 	truncPer := r.Pick(4, 80) // per chunk
 	mutPer := r.Pick(28, 20)
@@ -509,7 +576,7 @@ func Run(r *monitor.Run) {
 	c.catalogue(combos)
 
 	// ---- 3. generator (iii): raw random bytes
-	rawN := r.Pick(12000, 2400000)
+	rawN := r.Pick(12000, 3200000)
 	rawChunk := r.Pick(1000, 50000)
 	r.Parallel((rawN+rawChunk-1)/rawChunk, workers, func(i int) {
 		rng := r.Rand(fmt.Sprintf("raw-%d", i))
@@ -540,14 +607,21 @@ func (c *checker) allocSection(combos []combo) {
 			runtime.GC()
 		}
 	}
-	// (iv) bombs: per (type, version) one maximal declaration, then smaller ones
-	for _, cb := range combos {
+	// (iv) bombs: per type and reader version (here also AUTH under v3.x: the decoder does not
+	// look at the version for it) one maximal declaration, then smaller ones
+	var all []combo
+	for t := byte(1); t <= 15; t++ {
+		for _, v := range versions {
+			all = append(all, combo{t, v})
+		}
+	}
+	for _, cb := range all {
 		kind, in := bombInput(rng, cb.t, cb.v, true)
 		c.runCase(caseInfo{gen: "bomb:" + kind, v: cb.v, in: in})
 		runtime.GC()
 	}
 	for i, total := 0, r.Pick(110, 2400); i < total; i++ {
-		cb := combos[rng.Intn(len(combos))]
+		cb := all[rng.Intn(len(all))]
 		kind, in := bombInput(rng, cb.t, cb.v, !r.Quick() && i%12 == 0)
 		c.runCase(caseInfo{gen: "bomb:" + kind, v: cb.v, in: in})
 		if h := parseHeader(in); h.rl > 32<<20 {
